@@ -27,7 +27,7 @@ CHECKS = {
    note="RefPP is the trusted reference; inputs with stray #else/#endif are not asserted",
    technique="exhaustive small-scope enumeration against a reference evaluator"),
  "C03": dict(cat="exploration", design="§5 C03",
-   text="Totality oracle (catch_unwind, supervisor process for aborts/stack overflows, deterministic budgets for parser, include traversal and class-hierarchy walks) over ~20k generated multi-file workspaces per quick run - semantic stress patterns (incl. extreme integers wherever positions and widths are computed), shapes whose cost must stay polynomial (class lattices to depth 64, long chains, wide parent lists, multiclasses whose records double with every inner defm - self-instantiating, chained, ambiguous prefixes), name-colliding 'soup' programs, their typing prefixes and single-token edits, grammar programs, seed and real LLVM files - each swept with the full query set at every offset (small files) or every token boundary.",
+   text="Totality oracle (catch_unwind, supervisor process for aborts/stack overflows, deterministic budgets for parser, include traversal and class-hierarchy walks) over ~20k generated multi-file workspaces per quick run - semantic stress patterns (incl. extreme integers wherever positions and widths are computed), shapes whose cost must stay polynomial (class lattices to depth 64, long chains, wide parent lists, multiclasses whose records double with every inner defm - self-instantiating, chained, ambiguous prefixes; an include graph of 40 stacked diamonds), name-colliding 'soup' programs, their typing prefixes and single-token edits, grammar programs, seed and real LLVM files - each swept with the full query set at every offset (small files) or every token boundary.",
    note="acyclic include graphs only (cycles: C16); 256 MiB stacks; in-memory FileSystem implementation of the harness",
    technique="property-based testing / fuzzing of the analysis API with crash isolation"),
  "C06": dict(cat="exploration", design="§5 C06",
@@ -39,11 +39,11 @@ CHECKS = {
    note="workspace = key set of diagnostics(); text of a file = what the harness' FileSystem served",
    technique="property-based testing: validity predicate over all query results"),
  "C07": dict(cat="exploration", design="§5 C07",
-   text="Differential oracle after every step of generated edit histories (1..12 operations over a 4-file workspace, 24 text variants per file covering every include subset, renames, moved includes, syntax/type errors, missing includes; server-style and API-style edits, root switches): the long-lived host's full query dump must equal a fresh host's. All ordered pairs of a first operation with a second are enumerated, longer histories are random; also histories over generated (SEM) programs with seven kinds of text variants, disk-only changes of included files, and didOpen/didChange/didClose histories through the real server (in a plain workspace directory, in one whose name the editor percent-escapes and in one behind a symbolic link; exhaustive family closed-documents: an unsaved edit, a close, and the document reached again through an include) - with unopened files rewritten on disk, also to same-length texts under an unchanged modification time, and with a file that some variants include in vain appearing, disappearing, being opened unsaved and closed - compared with a fresh analysis of disk overlaid by the open buffers.",
+   text="Differential oracle after every step of generated edit histories (1..12 operations over a 4-file workspace, 24 text variants per file covering every include subset, renames, moved includes, syntax/type errors, missing includes; server-style and API-style edits, root switches): the long-lived host's full query dump must equal a fresh host's. All ordered pairs of a first operation with a second are enumerated, longer histories are random; also histories over generated (SEM) programs with seven kinds of text variants, disk-only changes of included files, and didOpen/didChange/didClose histories through the real server (in a plain workspace directory, in one whose name the editor percent-escapes and in one behind a symbolic link; exhaustive families closed-documents: an unsaved edit, a close, and the document reached again through an include; unmodified-documents: a document opened with the very text of its file, which another program then rewrites) - with unopened files rewritten on disk, also to same-length texts under an unchanged modification time, and with a file that some variants include in vain appearing, disappearing, being opened unsaved and closed - compared with a fresh analysis of disk overlaid by the open buffers.",
    note="every edit is followed by set_root_file; hash-ordered result lists are compared sorted; FileIds are normalised to paths",
    technique="stateful property-based testing: history generation with a from-scratch differential oracle"),
  "C16": dict(cat="exploration", design="§5 C16",
-   text="Exhaustive enumeration of every include graph (all edge sets incl. self-loops) over <=3 files (thorough: <=4 files, 65536 graphs, and 800k random graphs of 5-8 files, sparse to dense) x 10 variants (missing includes in every file, an include statement with an empty file name, INCLUDE_DIR-only target, directory-vs-INCLUDE_DIR choice, doubled include statements, includes nested in let/foreach/if/multiclass blocks, two directories with same-named files, files that declare nothing by name, include statements with a comment before the file name), checked against a reference reachability/resolution model: termination via traversal budget, exact workspace, exact document links, diagnostics only on unresolvable includes, single indexing, references across all includers.",
+   text="Exhaustive enumeration of every include graph (all edge sets incl. self-loops) over <=3 files (thorough: <=4 files, 65536 graphs, and 800k random graphs of 5-8 files, sparse to dense), ladders of 1..89 stacked diamonds (up to 268 files reached along 2^89 paths) within a traversal budget linear in files + include statements, x 10 variants (missing includes in every file, an include statement with an empty file name, INCLUDE_DIR-only target, directory-vs-INCLUDE_DIR choice, doubled include statements, includes nested in let/foreach/multiclass blocks and spread over both branches of an if, two directories with same-named files, files that declare nothing by name, include statements with a comment before the file name), checked against a reference reachability/resolution model: termination via traversal budget, exact workspace, exact document links, diagnostics only on unresolvable includes, single indexing, references across all includers.",
    note="traversal-budget hook in collect_sources / Include::index; search order taken from the documentation",
    technique="exhaustive small-scope enumeration of configurations against a reference model"),
  "C20": dict(cat="exploration", design="§5 C20",
@@ -55,7 +55,7 @@ CHECKS = {
    note="the generator's scoping rules were audited against llvm-tblgen-14; uses of a field after a let override may resolve to the declaration or an override identifier; reference sets of overridden fields are not asserted",
    technique="property-based testing with a by-construction oracle (scope-tracking program generator)"),
  "C13": dict(cat="fault_enumeration", design="§5 C13",
-   text="Soundness: 20000 well-formed SEM programs per quick run (incl. list pastes, !if over records, defm with class parents, records named after their defm and used as values, self-instantiating multiclasses, !if and lists over records of unrelated classes) must produce no diagnostic in any file, nor may the 18 vendored files that llvm-tblgen-14 accepts as roots (14 LLVM-14 headers such as Target.td and Intrinsics.td, four hand-written backend-style files; LF and CRLF). Completeness: fourteen fault classes (undefined class / multiclass / identifier / field read / field named by a let, missing include, dropped and surplus template argument, required positional arguments removed while named ones stay, type-incompatible value, operator arity +1/-1, deleted token in root / in an included file) are seeded one at a time at a generated eligible site (typed sites: initialisers, template arguments, every operand of the integer operators and the elements of list literals); a diagnostic must intersect the site in the seeded file, and faults in the root must leave the included files clean.",
+   text="Soundness: 20000 well-formed SEM programs per quick run (incl. list pastes, !if over records, defm with class parents, records named after their defm and used as values, self-instantiating multiclasses, !if and lists over records of unrelated classes) must produce no diagnostic in any file, nor may the 18 vendored files that llvm-tblgen-14 accepts as roots (14 LLVM-14 headers such as Target.td and Intrinsics.td, four hand-written backend-style files; LF and CRLF). Completeness: fourteen fault classes (undefined class / multiclass / identifier / field read / field named by a let, missing include, dropped and surplus template argument, required positional arguments removed while named ones stay, type-incompatible value, operator arity +1/-1, deleted token in root / in an included file) are seeded one at a time at a generated eligible site (undefined identifiers: a name declared nowhere, or the name that stands there plus one character; the names of records that defms compose are sites as well) (typed sites: initialisers, template arguments, every operand of the integer operators and the elements of list literals); a diagnostic must intersect the site in the seeded file, and faults in the root must leave the included files clean.",
    note="well-formedness audited against llvm-tblgen-14 on its feature subset; token deletions restricted to ';', '=' (not before '{') and ':' whose absence is locally detectable; type faults use literals for which no TableGen conversion exists",
    technique="property-based testing + single-fault seeding over generated programs"),
  "C18": dict(cat="exploration", design="§5 C18",
@@ -79,7 +79,7 @@ CHECKS = {
    note="buffer = disk in this check (C12 covers the difference); idle = all spawned tasks ended + barrier request",
    technique="stateful property-based testing against a from-scratch oracle"),
  "C12": dict(cat="exploration", design="§5 C12",
-   text="Exhaustive enumeration of all sessions of up to 4 (thorough 5) open/change/close/save events and workspace-leaving events (an unrelated third document becomes root; the root drops its include), each with the included document on disk, never saved, and including the root back (include cycle through every edited document), and - up to 3 (thorough 4) events - in a workspace directory reached through a symbolic link, in a directory whose name the editor percent-escapes differently from the server's URL library (`+`, `[`, `]`, blank; diagnostics keyed by the decoded URI), and while another program rewrites both files on disk after every analysed step (buffer variant 0 then being the text on disk: a document opened unmodified), over a root and an included document whose disk and buffer texts differ observably, compared after every step with a reference session model (disk overlaid by open buffers, root = last touched).",
+   text="Exhaustive enumeration of all sessions of up to 4 (thorough 5) open/change/close/save events and workspace-leaving events (an unrelated third document becomes root; the root drops its include), each with the included document on disk, never saved, and including the root back (include cycle through every edited document), and - up to 3 (thorough 4) events - in a workspace directory reached through a symbolic link, in a directory whose name the editor percent-escapes differently from the server's URL library (`+`, `[`, `]`, blank; diagnostics keyed by the decoded URI), with the included document in a directory of its own below INCLUDE_DIR (a library file that is opened and edited), and while another program rewrites both files on disk after every analysed step (buffer variant 0 then being the text on disk: a document opened unmodified), over a root and an included document whose disk and buffer texts differ observably, compared after every step with a reference session model (disk overlaid by open buffers, root = last touched).",
    note="a close triggers no analysis; its effect (disk text is the truth again) is checked at the next analysed step",
    technique="exhaustive small-scope enumeration of sessions against a reference model"),
  "C04": dict(cat="exploration", design="§5 C04",
